@@ -133,11 +133,14 @@ def run(tier, seed):
                                next_event=nxt, last_matched=ev[matched[i] - 1] if matched[i] else None,
                                fin=lines[i]["fin"]))
     chk.sample(dict(trace_cfg=lines[0]["cfg"], n_events=len(lines[0]["ev"])))
+    # the container and helper callbacks behind the protocol: CallbackList as a mutable sequence with its type
+    # discipline and dispatch order, LambdaCallback's arity table, the Timer (spec/CallbackSeq.tla)
+    import ext_callbacks
+    ext_callbacks.run(chk, tier, seed)
     if tier == "thorough":
         # unbounded safety of the stop protocol: Apalache inductive invariant on spec/TrainInd.tla, TLC
         # refinement Train.tla => TrainInd.tla (skipped, never a failure, when Apalache is unavailable)
         import ext_apalache
         ext_apalache.run(chk, tier, seed)
-    chk.assumptions += ["CPU only", "Timer callback (time=True) is unobserved; its presence must not change the events",
-                        "at least one recording callback is in the list"]
+    chk.assumptions += ["CPU only",                         "at least one recording callback is in the list"]
     return chk.finish()
